@@ -47,7 +47,11 @@ Section M.
     let o := outcome_of N (run N fuel w q) in
     line "M" id (match q_target q with
                  | Some _ => if has_tie N fuel w q then "TIE:" ++ o_status o else summary q o
-                 | None => summary q o
+                 | None =>
+                     (* zero / clamped edge costs: equal cost labels can carry different states, the parent then
+                        depends on the tie-break *)
+                     if negb (forallb (fun c => leb (lit 1 (-2)) c) (w_cost w)) && has_tie N fuel w q
+                     then "TIE:" ++ o_status o else summary q o
                  end).
 End M.
 
@@ -56,12 +60,17 @@ Definition okb (w : world QN) (e : nat) : bool := negb (memn e (w_forbid w)).
 Definition costq (w : world QN) (e : nat) : Q := nth e (w_cost w) 0%Q.
 
 (* the hypotheses of the property: restrictions that depend only on the edge, edge costs that do not depend on
-   how the edge was reached, nothing fails, no limit; positive costs *)
+   how the edge was reached, nothing fails, no limit *)
 Definition in_class (w : world QN) : bool :=
   match w_fturn w, w_ferr w, w_terr w, w_turn w, w_term w with
-  | [], [], [], [], TUnlimited => forallb (fun c => negb (Qle_bool c 0)) (w_cost w)
+  | [], [], [], [], TUnlimited => true
   | _, _, _, _, _ => false
   end.
+(* the state label of a tree entry is compared with the exact least cost only when binary64 sums of the cost table are
+   exact: every cost is a positive multiple of 1/64 not above 2^21 (no clamping to MIN_COST, no absorption) *)
+Definition costs_positive (w : world QN) : bool :=
+  forallb (fun c => negb (Qle_bool c 0) && Qle_bool c (2097152 # 1)
+                    && Pos.eqb (Qden (Qred (c * (64 # 1)))) 1) (w_cost w).
 
 Fixpoint ins_nat (x : nat) (l : list nat) : list nat :=
   match l with
@@ -117,6 +126,7 @@ Definition judge (w : world QN) (q : query QN) (status : string)
         let R := reach_set ok d g src ∖ {[ src ]} in
         let R' := match extra with Some b => R ∪ {[ b ]} | None => R end in
         if negb (list_eqb (map fst t) (sorted_elements R')) then Some "tree vertices are not the reachable set" else
+        if negb (costs_positive w) then None else
         let L := bf ok d g (costq w) src in
         if negb (bf_stable ok d g (costq w) src L) then Some "oracle: Bellman-Ford not stable" else
         if labels_ok (w_init w) L extra t then None else Some "a label is not the least cost"
